@@ -83,7 +83,7 @@ struct Builder {
   std::map<std::string, Reg> regs;
   std::map<std::string, BaseMem> stacks;
   std::map<uint64_t, Label> labels;
-  std::map<std::string, InstId> names;
+  std::map<std::string, InstId> names, names_v;
   FuncNode* func = nullptr;
   std::vector<TypeId> arg_types;
   TypeId ret_type = TypeId::kVoid;
@@ -108,6 +108,7 @@ struct Builder {
       if (InstAPI::inst_id_to_string(arch, id, InstStringifyOptions::kNone, s) != Error::kOk) break;
       if (s.is_empty()) continue;
       names.emplace(std::string(s.data(), s.size()), id);
+      names_v[std::string(s.data(), s.size())] = id;   // AArch64: SIMD ids repeat the GP mnemonics, the later id is the SIMD one
     }
   }
 
@@ -249,7 +250,14 @@ struct Builder {
       size_t n = w.size() - 2;
       if (n > 6) throw Fail{"too many operands"};
       for (size_t i = 0; i < n; i++) ops[i] = operand(w[i + 2]);
-      check(cc->emit_op_array(inst_id(w.at(1)), ops, n), ("emit " + w[1]).c_str());
+      InstId id = inst_id(w.at(1));
+      if (!is_x86()) {
+        bool any_vec = false;
+        for (size_t i = 0; i < n; i++) any_vec |= ops[i].is_reg() && ops[i].as<Reg>().is_vec();
+        auto it = names_v.find(w[1]);
+        if (any_vec && it != names_v.end()) id = it->second;
+      }
+      check(cc->emit_op_array(id, ops, n), ("emit " + w[1]).c_str());
       tag_new_nodes(before);
     } else if (k == "ik") {
       // instruction with an AVX-512 mask selector: ik <mnemonic> <k register> <z|m> <operand>*
@@ -327,6 +335,7 @@ struct Builder {
 struct Dumper {
   Builder& b;
   std::string out;
+  bool post_dump = false;
   explicit Dumper(Builder& b) : b(b) {}
   void tok(const std::string& s) { out += ' '; out += s; }
   static std::string hex(uint64_t v) { return vh::to_hex(v); }
@@ -425,7 +434,16 @@ struct Dumper {
       InstRWInfo rw;
       Error e = InstAPI::query_rw_info(b.arch, inst->baseInst(), ops.data(), ops.size(), &rw);
       tok("I"); tok(std::to_string(tag)); tok(std::string(name.data(), name.size())); tok(std::to_string(cf));
-      tok(hex(uint32_t(inst->options()) & ~uint32_t(InstOptions::kReserved | InstOptions::kUnfollow | InstOptions::kOverwrite | InstOptions::kShortForm | InstOptions::kLongForm)));
+      {
+        // the allocated instruction must be a form the ISA has (InstAPI::validate, the library's own strict validator):
+        // a register-to-memory substitution may create one that does not exist
+        std::string o = hex(uint32_t(inst->options()) & ~uint32_t(InstOptions::kReserved | InstOptions::kUnfollow | InstOptions::kOverwrite | InstOptions::kShortForm | InstOptions::kLongForm));
+        if (post_dump) {
+          Error ev = InstAPI::validate(b.arch, inst->baseInst(), ops.data(), ops.size(), ValidationFlags::kNone);
+          if (ev != Error::kOk) o += std::string("!") + DebugUtils::error_as_string(ev);
+        }
+        tok(o);
+      }
       tok(e == Error::kOk ? hex(uint32_t(rw.read_flags())) : "x"); tok(e == Error::kOk ? hex(uint32_t(rw.write_flags())) : "x");
       tok(inst->has_extra_reg() ? reg_name(inst->extra_reg().type(), inst->extra_reg().id()) : "-");
       std::string ann = "-";
@@ -471,7 +489,11 @@ struct Dumper {
 
 static uint8_t g_buf[256 + 64];
 static sigjmp_buf g_jmp;
-static void on_signal(int sig) { siglongjmp(g_jmp, sig); }
+static uint8_t g_fault_bytes[16];
+static void on_signal(int sig, siginfo_t* si, void*) {
+  if (sig == SIGILL && si && si->si_addr) memcpy(g_fault_bytes, si->si_addr, 16);
+  siglongjmp(g_jmp, sig);
+}
 
 static std::string process(const std::string& line) {
   Builder b;
@@ -504,6 +526,7 @@ static std::string process(const std::string& line) {
     if (e != Error::kOk) return std::string("raerr ") + DebugUtils::error_as_string(e);
     d.frame();
     d.tok("POST");
+    d.post_dump = true;
     d.nodes();
     // serialization of the allocated function through the real assembler of the target (all three architectures)
     {
@@ -537,11 +560,11 @@ static std::string process(const std::string& line) {
       }
       g_calls.clear();
       // a miscompiled function may loop for ever or divide by zero: 3 s of CPU time, SIGFPE caught
-      struct sigaction sa; memset(&sa, 0, sizeof sa); sa.sa_handler = on_signal; sigemptyset(&sa.sa_mask);
-      sigaction(SIGVTALRM, &sa, nullptr); sigaction(SIGFPE, &sa, nullptr);
+      struct sigaction sa; memset(&sa, 0, sizeof sa); sa.sa_sigaction = on_signal; sa.sa_flags = SA_SIGINFO; sigemptyset(&sa.sa_mask);
+      sigaction(SIGVTALRM, &sa, nullptr); sigaction(SIGFPE, &sa, nullptr); sigaction(SIGILL, &sa, nullptr);
       struct itimerval tv = {{0, 0}, {3, 0}}, off = {{0, 0}, {0, 0}};
       int sig = sigsetjmp(g_jmp, 1);
-      if (sig != 0) { setitimer(ITIMER_VIRTUAL, &off, nullptr); ex += sig == SIGFPE ? " r=SIGFPE,m=,c=" : " r=TIMEOUT,m=,c="; continue; }
+      if (sig != 0) { setitimer(ITIMER_VIRTUAL, &off, nullptr); ex += sig == SIGFPE ? " r=SIGFPE,m=,c=" : sig == SIGILL ? " r=SIGILL:" + vh::bytes_to_hex(g_fault_bytes, 16) + ",m=,c=" : " r=TIMEOUT,m=,c="; continue; }
       setitimer(ITIMER_VIRTUAL, &tv, nullptr);
       uint64_t r = ((uint64_t(*)(uint64_t, uint64_t, uint64_t, uint64_t, uint64_t, uint64_t, uint64_t, uint64_t, uint64_t, uint64_t, uint64_t, uint64_t))fn)(a[0], a[1], a[2], a[3], a[4], a[5], a[6], a[7], a[8], a[9], a[10], a[11]);
       setitimer(ITIMER_VIRTUAL, &off, nullptr);
